@@ -59,3 +59,31 @@ def function_body_roundtrip(function_def):
 
     ir = parse_function(function_def)
     return emit_function(ir, function_name=None, function_type=None, emit_default_doc=False, inline_types=True, emit_as_kwonlyargs=False)
+
+
+def call_body_roundtrip(function_def):
+    """C16, the __call__ path: parse a def, emit it as a class with emit_call=True: the body is re-homed into __call__"""
+    from doctrans.emit import class_ as emit_class
+    from doctrans.parse import function as parse_function
+
+    ir = parse_function(function_def)
+    return emit_class(ir, emit_call=True, class_name="C")
+
+
+def replace_at_location(module, search, replacement):
+    """C15 / C11 / C14: annotate a module, replace the node at a dotted location: exactly the addressed node changes"""
+    from doctrans.ast_utils import RewriteAtQuery, annotate_ancestry
+
+    annotate_ancestry(module)
+    rewriter = RewriteAtQuery(search=search, replacement_node=replacement)
+    out = rewriter.visit(module)
+    return out, rewriter.replaced
+
+
+def sync_one_property(input_module, output_module, output_param):
+    """C14: copy the node at Cfg.x of the input module over the node at <output_param> of the output module (annotated, as ast_parse leaves it)"""
+    from doctrans.ast_utils import annotate_ancestry
+    from doctrans.sync_properties import sync_property
+
+    annotate_ancestry(output_module)
+    return sync_property(False, "Cfg.x", input_module, "input.py", output_param, None, output_module)
